@@ -631,6 +631,7 @@ theorem FRI_closed : Closed FRI where
   front := fun s f h => ⟨FInv_closed.front s f h.1, RI_front s f h.1 h.2⟩
   siteCnt := fun s x h => ⟨FInv_closed.siteCnt s x h.1, h.2.same rfl rfl rfl⟩
   emitInj := fun s a b c d h => ⟨FInv_closed.emitInj s a b c d h.1, h.2.same rfl rfl rfl⟩
+  note := fun s h => ⟨FInv_closed.note s h.1, h.2.same rfl rfl rfl⟩
   clock := fun s n h => ⟨FInv_closed.clock s n h.1, h.2.same rfl rfl rfl⟩
   lastFlush := fun s n h => ⟨FInv_closed.lastFlush s n h.1, h.2.same rfl rfl rfl⟩
   gone := fun s h => ⟨FInv_closed.gone s h.1, h.2.same rfl rfl rfl⟩
